@@ -999,8 +999,12 @@ class Engine:
                     self.front[quiet]['time'] = self.global_time
                     self.front[quiet]['update'] = {}
 
-            elif self.global_time + full_step <= end_time:
-                # at least one process ran within the interval
+            elif (round(self.global_time + full_step,
+                        self.global_time_precision)
+                  if self.global_time_precision is not None
+                  else self.global_time + full_step) <= end_time:
+                # at least one process ran within the interval (judged
+                # by the grid time the clock lands on, see below)
                 # increase the time, apply updates, and continue
                 self.global_time += full_step
                 if self.global_time_precision is not None:
